@@ -668,6 +668,7 @@ impl Engine {
         }
         if !tree.malformed.is_empty() || tree.leaves != r1.leaves {
             self.viol("C10", &format!("{}|translations-changed", op), &hist, Some(ai), &diff_desc(tree, r1));
+            self.viol("C01", &format!("{}|translations-differ-from-the-history-after-clean-up", op), &hist, Some(ai), &diff_desc(tree, r1));
             return false;
         }
         if tree.tables != r1.tables {
